@@ -352,10 +352,17 @@ class DueBase(IndBase):
     with_worker = False
     task_sets = (("Fm",), ("Fo",), ("Fm", "Vo"), ("Vm", "Fm", "Fo"), ("Zm", "Fm"))
     bounded = "1..3 tasks; due dates, priorities and all integers symbolic"
-    listed = (False, True)
+    listed = (False, True, "subset")  # no list (all tasks of the problem), every task listed, a strict subset listed
 
     def extra_cases(self, tier):
         return [{"listed": l} for l in self.listed]
+
+    def cases(self, tier):
+        return [c for c in super().cases(tier) if not (c.get("listed") == "subset" and len(c["ts"]) < 2)]
+
+    def subject(self, tasks, case):
+        """the tasks the indicator is about"""
+        return list(tasks[:-1]) if case.get("listed") == "subset" else list(tasks)
 
     def prio(self, t, case):
         """the weight of a task: its declared priority, 1 when none is declared (documented default)"""
@@ -375,10 +382,10 @@ class Tardiness(DueBase):
         return super().extra_cases(tier) + [{"listed": True, "prio": "default"}]
 
     def build(self, ps, P, case, pb, w, tasks):
-        return ps.IndicatorTardiness(list_of_tasks=tasks) if case["listed"] else ps.IndicatorTardiness()
+        return ps.IndicatorTardiness(list_of_tasks=self.subject(tasks, case)) if case["listed"] else ps.IndicatorTardiness()
 
     def definition(self, P, ctx, case):
-        return z3.Sum([If(spec.sched(t), self.prio(t, case) * spec.zmax(0, t._end - T(t.due_date)), 0) for t in ctx["tasks"]])
+        return z3.Sum([If(spec.sched(t), self.prio(t, case) * spec.zmax(0, t._end - T(t.due_date)), 0) for t in self.subject(ctx["tasks"], case)])
 
 
 @register
@@ -387,10 +394,10 @@ class Earliness(DueBase):
     target = "indicator.IndicatorEarliness.__init__"
 
     def build(self, ps, P, case, pb, w, tasks):
-        return ps.IndicatorEarliness(list_of_tasks=tasks) if case["listed"] else ps.IndicatorEarliness()
+        return ps.IndicatorEarliness(list_of_tasks=self.subject(tasks, case)) if case["listed"] else ps.IndicatorEarliness()
 
     def definition(self, P, ctx, case):
-        return z3.Sum([If(spec.sched(t), spec.zmax(0, T(t.due_date) - t._end), 0) for t in ctx["tasks"]])
+        return z3.Sum([If(spec.sched(t), spec.zmax(0, T(t.due_date) - t._end), 0) for t in self.subject(ctx["tasks"], case)])
 
 
 @register
@@ -399,10 +406,10 @@ class NumberOfTardyTasks(DueBase):
     target = "indicator.IndicatorNumberOfTardyTasks.__init__"
 
     def build(self, ps, P, case, pb, w, tasks):
-        return ps.IndicatorNumberOfTardyTasks(list_of_tasks=tasks) if case["listed"] else ps.IndicatorNumberOfTardyTasks()
+        return ps.IndicatorNumberOfTardyTasks(list_of_tasks=self.subject(tasks, case)) if case["listed"] else ps.IndicatorNumberOfTardyTasks()
 
     def definition(self, P, ctx, case):
-        return spec.count([And(spec.sched(t), t._end > T(t.due_date)) for t in ctx["tasks"]])
+        return spec.count([And(spec.sched(t), t._end > T(t.due_date)) for t in self.subject(ctx["tasks"], case)])
 
 
 @register
@@ -413,10 +420,10 @@ class MaximumLateness(DueBase):
     task_sets = (("Fm",), ("Fm", "Vm"), ("Vm", "Fm", "Zm"))
 
     def build(self, ps, P, case, pb, w, tasks):
-        return ps.IndicatorMaximumLateness(list_of_tasks=tasks) if case["listed"] else ps.IndicatorMaximumLateness()
+        return ps.IndicatorMaximumLateness(list_of_tasks=self.subject(tasks, case)) if case["listed"] else ps.IndicatorMaximumLateness()
 
     def definition(self, P, ctx, case):
-        ls = [t._end - T(t.due_date) for t in ctx["tasks"]]
+        ls = [t._end - T(t.due_date) for t in self.subject(ctx["tasks"], case)]
         return lambda v: And(Or(*[v == l for l in ls]), *[v >= l for l in ls])
 
 
@@ -449,6 +456,18 @@ class SumObjBase(IndBase):
     bounded = "1..3 tasks; priorities and all integers symbolic"
     inlines = IndBase.inlines + ("objective.Objective.__init__", "indicator.IndicatorFromMathExpression.__init__")
 
+    def extra_cases(self, tier):
+        return [{}, {"listed": "subset"}]  # all the tasks of the problem / a strict subset given as list_of_tasks
+
+    def cases(self, tier):
+        return [c for c in super().cases(tier) if not (c.get("listed") == "subset" and len(c["ts"]) < 2)]
+
+    def subject(self, tasks, case):
+        return list(tasks[:-1]) if case.get("listed") == "subset" else list(tasks)
+
+    def lot(self, tasks, case):
+        return {"list_of_tasks": self.subject(tasks, case)} if case.get("listed") == "subset" else {}
+
     def scenario(self, ps, P, case):
         P.assume(P.int("H") >= 1)
         pb = ps.SchedulingProblem(name="pb", horizon=P.int("H"))
@@ -478,34 +497,40 @@ class Flowtime(SumObjBase):
     target = "objective.ObjectiveMinimizeFlowtime.__init__"
 
     def build_objective(self, ps, P, case, tasks):
-        return ps.ObjectiveMinimizeFlowtime()
+        return ps.ObjectiveMinimizeFlowtime(**self.lot(tasks, case))
 
     def definition(self, P, ctx, case):
-        return z3.Sum([If(spec.sched(t), t._end, 0) for t in ctx["tasks"]])
+        return z3.Sum([If(spec.sched(t), t._end, 0) for t in self.subject(ctx["tasks"], case)])
 
 
 @register
 class Priorities(SumObjBase):
     lifts = True  # element-wise meaning: holds for every list length once the loops are independent (contracts/loops.py)
+
+    def extra_cases(self, tier):
+        return [{}]  # (this objective has no list_of_tasks parameter: always every task of the problem)
     target = "objective.ObjectivePriorities.__init__"
 
     def build_objective(self, ps, P, case, tasks):
-        return ps.ObjectivePriorities()
+        return ps.ObjectivePriorities(**self.lot(tasks, case))
 
     def definition(self, P, ctx, case):
-        return z3.Sum([If(spec.sched(t), t._end * T(t.priority), 0) for t in ctx["tasks"]])
+        return z3.Sum([If(spec.sched(t), t._end * T(t.priority), 0) for t in self.subject(ctx["tasks"], case)])
 
 
 @register
 class StartEarliest(SumObjBase):
     lifts = True  # element-wise meaning: holds for every list length once the loops are independent (contracts/loops.py)
+
+    def extra_cases(self, tier):
+        return [{}]  # (this objective has no list_of_tasks parameter: always every task of the problem)
     target = "objective.ObjectiveTasksStartEarliest.__init__"
 
     def build_objective(self, ps, P, case, tasks):
-        return ps.ObjectiveTasksStartEarliest()
+        return ps.ObjectiveTasksStartEarliest(**self.lot(tasks, case))
 
     def definition(self, P, ctx, case):
-        return z3.Sum([If(spec.sched(t), t._start * T(t.priority), 0) for t in ctx["tasks"]])
+        return z3.Sum([If(spec.sched(t), t._start * T(t.priority), 0) for t in self.subject(ctx["tasks"], case)])
 
 
 @register
@@ -516,10 +541,10 @@ class GreatestStart(SumObjBase):
     task_sets = (("Fm",), ("Fm", "Vm"), ("Vm", "Fm", "Zm"))
 
     def build_objective(self, ps, P, case, tasks):
-        return ps.ObjectiveMinimizeGreatestStartTime()
+        return ps.ObjectiveMinimizeGreatestStartTime(**self.lot(tasks, case))
 
     def definition(self, P, ctx, case):
-        ss = [t._start for t in ctx["tasks"]]
+        ss = [t._start for t in self.subject(ctx["tasks"], case)]
         return lambda v: And(Or(*[v == s for s in ss]), *[v >= s for s in ss])
 
 
@@ -531,10 +556,10 @@ class StartLatest(SumObjBase):
     task_sets = (("Fm",), ("Fm", "Vm"), ("Vm", "Fm", "Zm"))
 
     def build_objective(self, ps, P, case, tasks):
-        return ps.ObjectiveTasksStartLatest()
+        return ps.ObjectiveTasksStartLatest(**self.lot(tasks, case))
 
     def definition(self, P, ctx, case):
-        ss = [t._start for t in ctx["tasks"]]
+        ss = [t._start for t in self.subject(ctx["tasks"], case)]
         return lambda v: And(Or(*[v == s for s in ss]), *[v <= s for s in ss])
 
 
